@@ -1,9 +1,9 @@
 (* GTF record lines as noodles-gtf writes and reads them (model; definitions only).
-   Writer: io/writer/line/record.rs and below (attributes: `key "value";` joined by spaces, a
-   multi-valued attribute repeats the key; value.rs escapes '\' and '"' with a backslash).
+   Writer: io/writer/line/record.rs and below (attributes: `key 'value';` joined by spaces, a
+   multi-valued attribute repeats the key; value.rs escapes '\' and ''' with a backslash).
    Reader: record/fields/bounds.rs, record.rs, record/attributes.rs (parse_attributes,
    escape_decode/unescape_string), record/attributes/field.rs (parse_field).
-   Faithful to the code: parse_string ends a quoted value at the FIRST '"', escaped or not. *)
+   parse_string (after the repair 7a3d67e) ends a quoted value at the first UNESCAPED quote. *)
 From Coq Require Import List NArith Bool.
 From NV Require Import Text.TextBase.
 Import ListNotations.
@@ -59,6 +59,19 @@ Definition consume_terminator (s : list N) : list N :=
   | [] => []
   end.
 
+(* parse_string: the closing quote is the first one that is not escaped; a backslash skips the
+   following byte; running off the end (also right after a backslash) is InvalidData.
+   [esc] = the byte is the one following a backslash. *)
+Fixpoint split_quote (esc : bool) (s : list N) : option (list N * list N) :=
+  match s with
+  | [] => None
+  | c :: t =>
+      if esc then
+        match split_quote false t with Some (a, r) => Some (c :: a, r) | None => None end
+      else if c =? 34 then Some ([], t)
+      else match split_quote (c =? 92) t with Some (a, r) => Some (c :: a, r) | None => None end
+  end.
+
 (* parse_field: (key, raw value, rest) *)
 Definition gtf_parse_field (src : list N) : res (list N * list N * list N) :=
   match split_once 32 src with
@@ -66,7 +79,7 @@ Definition gtf_parse_field (src : list N) : res (list N * list N * list N) :=
   | Some (key, rest) =>
       match rest with
       | 34 :: rest' =>
-          match split_once 34 rest' with
+          match split_quote false rest' with
           | None => Err InvalidData
           | Some (v, r) => Ok (key, v, consume_terminator r)
           end
